@@ -411,8 +411,13 @@ def o_rsasig(s, ctx, v, out):
     out.evals += 1
     out.keys.add(('rsasig', tuple(s.faults()), got, pre, k['bits'] % 8, min(len(msg), 70)))
     if pre and len(msg) != 32:
-        # a pre-hashed input that is not a SHA-256 digest (e.g. after truncation on the wire) is outside
-        # the documented interface: nothing asserted
+        # a pre-hashed input that is not a SHA-256 digest (e.g. after truncation on the wire).  EMSA-PSS is defined
+        # on mHash of exactly hLen octets, so no such input has a valid signature: a verifier that accepts one accepts
+        # a triple obtained by altering an accepted one (a prefix of the digest; the empty string with every signature).
+        # PKCS#1 v1.5 and BASIC padding carry the digest with its length, nothing is asserted for them.
+        if pad == 'PKCS2' and got:
+            v.bad('expected=reject|got=accept|prehashed-len=%s' % ('0' if len(msg) == 0 else '<32' if len(msg) < 32 else '>32'),
+                  'pre-hashed verification accepted a %d-byte input as the digest (SHA-256 digests have 32 bytes)' % len(msg))
         return
     mhash = msg if pre else hashlib.sha256(msg).digest()
     if pad == 'PKCS2':
